@@ -108,7 +108,7 @@ fn counter_addr(read_count: impl FnOnce() -> usize) -> (usize, usize) {
     let k = rmwlog::len();
     let c = read_count();
     let ops = rmwlog::since(k);
-    let addr = ops.iter().find(|o| o.kind == rmwlog::AKind::Load).map(|o| o.addr).expect("count read issued no load");
+    let addr = ops.iter().find(|o| o.kind != rmwlog::AKind::Fence).map(|o| o.addr).expect("reading the count touched no atomic");
     (addr, c)
 }
 fn set_count(addr: usize, v: usize) {
